@@ -7,4 +7,5 @@ test -f /opt/veriftools/tla/tla2tools.jar
 java -cp /opt/veriftools/tla/tla2tools.jar:/opt/veriftools/tla/CommunityModules-deps.jar tlc2.TLC -h >/dev/null 2>&1 || true
 /venv/bin/python -B -W ignore -c "import numpy, scipy, sys; sys.path.insert(0, '/repo'); import pyPRISM"
 /venv/bin/python -c "import Cython" && command -v gcc >/dev/null   # C18 rebuilds the Debyer extension in a scratch directory
+command -v apalache-mc >/dev/null   # C18: the chunk partition for every n, c (spec/ChunkInd.tla)
 echo "setup ok"
